@@ -768,16 +768,27 @@ func vC12Rehome(h int) vC12Topo {
 			}
 		},
 		prepare: func(rig *vC12Rig) {
+			t0 := time.Now()
+			defer func() {
+				if os.Getenv("VERIF_C12_DEBUG") != "" {
+					fmt.Fprintf(os.Stderr, "rehome: prepare took %v\n", time.Since(t0))
+				}
+			}()
 			phase.Store(1)
 			ample := middleware.MustRecursionWorkPolicyFromConfig(config.RecursionFirewallConfig{Mode: config.RecursionFirewallModeShadow})
-			rig.queryWith("w0.rz.mv.", false, middleware.NewRecursionWorkLedger(ample))
+			w := rig.queryWith("w0.rz.mv.", false, middleware.NewRecursionWorkLedger(ample))
+			if os.Getenv("VERIF_C12_DEBUG") != "" {
+				fmt.Fprintf(os.Stderr, "rehome: warm-up %+v\n", w)
+			}
 			phase.Store(2)
 			for k := 0; k < h; k++ {
 				// the cached address of the name has expired; another client has asked for it since, so the answer cache
 				// holds the new one (the resolver's own nameserver-address cache and the delegation still hold the old)
 				q := dns.Question{Name: fmt.Sprintf("n%d.rh.", k), Qtype: dns.TypeA, Qclass: dns.ClassINET}
 				rig.cm.Purge(q)
+				rig.cd = true
 				rig.queryWith(q.Name, false, middleware.NewRecursionWorkLedger(ample))
+				rig.cd = false
 			}
 			zq := dns.Question{Name: "rz.mv.", Qtype: dns.TypeNS, Qclass: dns.ClassINET}
 			if fs, ok := rig.cm.Store().(middleware.ResolutionFailureStore); ok {
@@ -876,7 +887,7 @@ func vC12RandTopo(r *rand.Rand, finite bool) vC12Topo {
 	case 6:
 		return vC12Lame(1+r.Intn(6), r.Intn(4))
 	case 7:
-		if r.Intn(2) == 0 {
+		if os.Getenv("VERIF_TIER") == "thorough" && r.Intn(2) == 0 {
 			return vC12Rehome(1 + r.Intn(4))
 		}
 		return vC12Trunc(r.Intn(4))
@@ -926,6 +937,7 @@ type vC12Rig struct {
 	res    *Resolver
 	cm     *cachemw.Cache
 	prepared bool // the topology's history was established (topologies without one: true)
+	cd       bool // the next client queries carry CD=1 (the resolver's own nameserver-address lookups do, with DNSSEC off)
 }
 
 // traced runs one client query on its own ledger and returns the event sequence of its request tree
@@ -1059,6 +1071,11 @@ func vC12NewRig(topo vC12Topo, mode int, maxOut, maxInt uint32, qmin bool) (*vC1
 	if qmin {
 		r.qnameMinLevel = 5
 	}
+	if topo.prepare != nil {
+		// endpoints nothing listens on cost a full socket timeout each until the circuit breaker opens: keep the history cheap
+		r.netTimeout = 120 * time.Millisecond
+		cfg.Timeout = config.Duration{Duration: 120 * time.Millisecond}
+	}
 	if topo.v6 {
 		cfg.IPv6Access = true
 		r.glueV6 = internalcache.New(defaultCacheSize)
@@ -1112,6 +1129,7 @@ func (rig *vC12Rig) queryWith(qname string, edns bool, own *middleware.Recursion
 	if edns {
 		req.SetEdns0(1232, false)
 	}
+	req.CheckingDisabled = rig.cd
 	rig.probe.ledger.Store(nil)
 	p0, r0 := rig.net.packets.Load(), rig.probe.runs.Load()
 	w := mock.NewWriter("udp", "192.0.2.77:5300")
@@ -1261,7 +1279,6 @@ func TestVerifC12Lab(t *testing.T) {
 		vC12NSFan(20, 0), vC12NSFan(33, 0), vC12NSFan(12, 2), vC12NSCycle(1), vC12NSCycle(3),
 		vC12Lame(4, 0), vC12Lame(4, 2), vC12Trunc(3),
 		vC12Late(2, 3, 4), vC12Late(1, 3, 5), vC12Late(2, 2, 4),
-		vC12Rehome(2),
 	}
 	if os.Getenv("VERIF_TIER") == "thorough" {
 		for _, k := range []int{1, 5, 9} {
@@ -1294,7 +1311,9 @@ func TestVerifC12Lab(t *testing.T) {
 		{vC12LateTail(1, 3, 6, 3), 5, 4, true}, {vC12LateTail(1, 3, 6, 3), 6, 4, true}, {vC12LateTail(1, 3, 6, 3), 8, 4, true},
 		{vC12LateTail(2, 4, 6, 2), 6, 4, true}, {vC12LateTail(2, 4, 6, 2), 7, 4, true}, {vC12LateTail(1, 2, 5, 3), 4, 4, true},
 		// the internal budget ends among the parallel nameserver lookups of checkHosts (whose errors it ignores), or just holds
-		{vC12Rehome(2), 128, 1, false}, {vC12Rehome(3), 128, 2, true}, {vC12Rehome(4), 64, 1, false}, {vC12Rehome(2), 128, 2, false},
+		{vC12Rehome(2), 128, 1, false}, {vC12Rehome(3), 128, 2, true}, {vC12Rehome(2), 128, 32, true},
+		// ... or holds for all of them and ends right after: the walk has its answer when the tree is latched
+		{vC12Rehome(2), 128, 2, false}, {vC12Rehome(1), 128, 1, true}, {vC12Rehome(3), 128, 3, false}, {vC12Rehome(4), 128, 4, true},
 	} {
 		fixed[len(boundary)] = vC12Fixed{f.maxOut, f.maxInt, f.qmin}
 		boundary = append(boundary, f.t)
@@ -1513,7 +1532,16 @@ func TestVerifC12Lab(t *testing.T) {
 				if tag != "" {
 					fam += 100
 				}
+				// KNOWN finding overbudget-tree-files-zone-failure, tagged by what is observed: a tree that ended over budget
+				// inside checkHosts' nameserver re-resolution files "every server of the zone failed" in the shared failure
+				// cache (recordResolutionZoneFailure does not consult the ledger), and the next client — own budget, nothing
+				// sent — is answered SERVFAIL / Cached Error although the zone resolves when nothing is budgeted
+				fkey := ""
+				if tag == "" && topo.fam == vC12FamRehome && x.first != 0 && resolvable && next.ede == 14 && next.packets == 0 {
+					fkey = "overbudget-tree-files-zone-failure"
+				}
 				emit(map[string]any{
+					"fkey": fkey,
 					"k": "lab-enforce-" + tag + topo.name,
 					"coq": fmt.Sprintf("CaseLab 2 %d %d %d %d %d %s %s %s %d %d %d %d %d %d %d %d %d %d", maxOut, maxInt, fam, topo.p1, topo.p2, vC12Flag(qmin), vC12Flag(edns), vC12Flag(resolvable && tag == ""),
 						x.packets, x.ledOut, x.ledInt, x.runs, x.first, vC12Rcode(x.rcode), x.ede, next.packets, vC12Rcode(next.rcode), next.ede),
@@ -1549,7 +1577,11 @@ func TestVerifC12Lab(t *testing.T) {
 			rig.net.stop()
 		}
 		// an exchange that ran into its socket timeout (loopback hiccup) makes the two runs incomparable
-		if bad || rep[0].elapsed > 900*time.Millisecond || rep[1].elapsed > 900*time.Millisecond {
+		hiccup := 900 * time.Millisecond
+		if topo.prepare != nil {
+			hiccup = 100 * time.Millisecond // these rigs run on a 120 ms socket timeout
+		}
+		if bad || rep[0].elapsed > hiccup || rep[1].elapsed > hiccup {
 			emit(map[string]any{"k": "lab-eq", "inconclusive": true, "desc": desc})
 			continue
 		}
